@@ -1,6 +1,6 @@
 (* C18 -- Great-circle distance and SDSS great-circle coordinates are geometrically exact.
    Property theorems only; each is closed by `exact` and followed by Print Assumptions.
-   gcirc_gen, gcirc_sindis2, m2r_vec, r2m_vec, stripe_to_incl_gen, angles_to_x_gen, x_to_angles_gen are
+   gcirc_gen, gcirc_h, m2r_vec, r2m_vec, stripe_to_incl_gen, angles_to_x_gen, x_to_angles_gen are
    GENERATED from /repo on every run (Generated/Gcirc.v, Generated/Coord.v). *)
 From Coq Require Import Reals ZArith QArith List.
 Import ListNotations.
@@ -9,16 +9,24 @@ Open Scope R_scope.
 
 (* ---- gcirc ---- *)
 
-(* the source's square-root argument is the haversine = (1 - p.q)/2 of the two unit vectors *)
-Theorem C18_hav_is_chord : forall a1 d1 a2 d2,
-  gcirc_sindis2 a1 d1 a2 d2 = (1 - dot (vec d1 a1) (vec d2 a2)) / 2.
-Proof. exact gcirc_sindis2_is_chord. Qed.
+(* the source's square-root argument is the haversine = (1 - p.q)/2 of the two unit vectors (pt_S: the caller's
+   coordinates as a unit vector, per unit convention) *)
+Theorem C18_hav_is_chord : forall units ra1 dec1 ra2 dec2, In units gcirc_valid_units ->
+  gcirc_h units ra1 dec1 ra2 dec2 = (1 - dot (pt_S units ra1 dec1) (pt_S units ra2 dec2)) / 2.
+Proof. exact gcirc_h_is_chord. Qed.
 Print Assumptions C18_hav_is_chord.
 
 (* asin argument legal for all real inputs: never NaN in exact arithmetic *)
-Theorem C18_hav_range : forall a1 d1 a2 d2, 0 <= gcirc_sindis2 a1 d1 a2 d2 <= 1.
-Proof. exact gcirc_sindis2_range. Qed.
+Theorem C18_hav_range : forall units ra1 dec1 ra2 dec2, In units gcirc_valid_units ->
+  0 <= gcirc_h units ra1 dec1 ra2 dec2 <= 1.
+Proof. exact gcirc_h_range. Qed.
 Print Assumptions C18_hav_range.
+
+(* the result is 2 asin sqrt of that argument, converted to the output unit *)
+Theorem C18_gcirc_is_asin_sqrt : forall units ra1 dec1 ra2 dec2,
+  gcirc_gen units ra1 dec1 ra2 dec2 = gcirc_out units (2 * asin (sqrt (gcirc_h units ra1 dec1 ra2 dec2))).
+Proof. exact gcirc_gen_eq. Qed.
+Print Assumptions C18_gcirc_is_asin_sqrt.
 
 (* the generated function is the documented one in all three unit conventions (15 deg/hour, 3600 arcsec/deg) *)
 Theorem C18_gcirc_is_spec : forall units ra1 dec1 ra2 dec2, In units gcirc_valid_units ->
